@@ -409,11 +409,31 @@ func main() {
 					c2[0] = cmd[0]
 					for i := 1; i < len(cmd); i++ {
 						c2[i] = cmd[i]
+						own := false
 						for _, k := range clusterKeys {
 							// the pool keys and the keys the generator derives from them ("<key>:al<n>")
 							if string(cmd[i]) == k || strings.HasPrefix(string(cmd[i]), k+":al") {
-								c2[i] = []byte(fmt.Sprintf("c%d:%s", j, cmd[i]))
+								own = true
 							}
+						}
+						// The connections must not meet on any key, or the two deployments may order them differently.
+						// Whatever stands in the first position is (for nearly every command) the key, also when a
+						// garbled command puts a number or an option word there; and the commands that write keys
+						// named in later positions get all of those made private too. Then no connection can create a
+						// key another one can see. (Both deployments receive the same rewritten command.)
+						if i == 1 {
+							own = true
+						}
+						switch nm {
+						case "MSET", "RENAME", "SMOVE":
+							own = true
+						case "LMOVE":
+							if i <= 2 {
+								own = true
+							}
+						}
+						if own {
+							c2[i] = []byte(fmt.Sprintf("c%d:%s", j, cmd[i]))
 						}
 					}
 					progsJ[j] = append(progsJ[j], c2)
